@@ -227,7 +227,9 @@ def whole_and_errs(co, resl):
 
 def sinks_of(co, fl, start):
     """Sinks reached by a value: set of ('responder', bb) / ('event', bb) / ('return',)"""
-    derived, uses = fl.forward([start], through_call=lambda t, ai: error_preserving(co.prog, co, t))
+    # the error, not the success payload: a read of `(result as Ok).0` does not carry it on (with `map_err(|e| log(e))?` written
+    # out as its match, the Ok arm re-wraps the payload and would otherwise make the return value look like a sink)
+    derived, uses = fl.forward([start], through_call=lambda t, ai: error_preserving(co.prog, co, t), stop_variants=("Ok", "Some", "Continue"))
     # aggregates wrapping the value (Err(e.into()), ConnectionClosed(e.into())) are followed by forward()
     out = set()
     for bb, ai in uses:
